@@ -128,6 +128,8 @@ theorem act_fr (s : State) (g : Nat) (a : Act) (hl : localAct s g a = true) : Fr
   | setR f b => exact setReady_fr g s f _ _ _
   | setW f b => exact setReady_fr g s f _ _ _
   | oob f => exact setReady_fr g s f _ _ _
+  | arm k => exact Frame.refl g s
+  | post k => exact Frame.refl g s
   | init e f m o => simp [localAct] at hl
   | destroy e => simp [localAct] at hl
   | close f => simp [localAct] at hl
@@ -229,6 +231,8 @@ theorem act_sim {f : Nat} {s t : State} (h : SimF f s t) (a : Act) (hl : localAc
   | setR g b => exact setReady_sim h g _ _ _
   | setW g b => exact setReady_sim h g _ _ _
   | oob g => exact setReady_sim h g _ _ _
+  | arm k => exact h
+  | post k => exact h
   | init e g m o => simp [localAct] at hl
   | destroy e => simp [localAct] at hl
   | close g => simp [localAct] at hl
@@ -281,6 +285,8 @@ theorem cbKeys_act (s : State) (f : Nat) (a : Act) (hl : localAct s f a = true) 
   | setR g b => exact cbKeys_setReady s g _ _ _
   | setW g b => exact cbKeys_setReady s g _ _ _
   | oob g => exact cbKeys_setReady s g _ _ _
+  | arm k => rfl
+  | post k => rfl
   | init e g m o => simp [localAct] at hl
   | destroy e => simp [localAct] at hl
   | close g => simp [localAct] at hl
@@ -531,6 +537,82 @@ theorem orderIndepSyn_sound (s : State) (h : Inv s) (r : List (Nat × Nat)) (hs 
       exact ⟨(hl.mem_iff).1 hfm, hfm, hloc fm ((hl.mem_iff).1 hfm), SimF.refl _ s⟩
     · exact h
     · exact passInv_start s l
+  rw [key r' hp, key r (List.Perm.refl r)]
+  exact List.Perm.append_right _ ((((List.reverse_perm r').trans hp).trans (List.reverse_perm r).symm).flatMap_right _)
+
+/-! ### whole turns: scripts outside the dispatch make no callback -/
+
+theorem cbKeys_initEv (s : State) (e f m : Nat) (o : Bool) : cbKeys (initEv s e f m o).1 = cbKeys s := by
+  apply cbKeys_of_log
+  unfold initEv
+  dsimp only
+  split; · rfl
+  split; · rfl
+  split; · rfl
+  simp only [log_setEv]
+  split
+  · rfl
+  · split <;> simp
+
+theorem cbKeys_destroyEv (s : State) (e : Nat) : cbKeys (destroyEv s e).1 = cbKeys s := by
+  unfold destroyEv
+  dsimp only
+  split; · rfl
+  have h1 := cbKeys_disableEv s e
+  split
+  · exact (cbKeys_of_log (by simp)).trans h1
+  · exact (cbKeys_of_log (by simp)).trans h1
+
+theorem cbKeys_act_any (s : State) (a : Act) : cbKeys (act s a).1 = cbKeys s := by
+  cases a with
+  | init e f m o => exact cbKeys_initEv s e f m o
+  | enable e => exact cbKeys_enableEv s e
+  | disable e => exact cbKeys_disableEv s e
+  | destroy e => exact cbKeys_destroyEv s e
+  | close f => show cbKeys (closeFd s f true).1 = _; unfold closeFd; split <;> rfl
+  | kill f => show cbKeys (closeFd s f false).1 = _; unfold closeFd; split <;> rfl
+  | setR g b => exact cbKeys_setReady s g _ _ _
+  | setW g b => exact cbKeys_setReady s g _ _ _
+  | oob g => exact cbKeys_setReady s g _ _ _
+  | arm k => rfl
+  | post k => rfl
+
+theorem cbKeys_runScript_any (sc : List Act) : ∀ s : State, cbKeys (runScript s sc) = cbKeys s := by
+  induction sc with
+  | nil => intro s; rfl
+  | cons a as ih => intro s; exact (ih _).trans (cbKeys_act_any s a)
+
+theorem cbKeys_runScripts (scs : List (List Act)) : ∀ s : State, cbKeys (runScripts s scs) = cbKeys s := by
+  unfold runScripts
+  induction scs with
+  | nil => intro s; rfl
+  | cons sc rest ih => intro s; exact (ih _).trans (cbKeys_runScript_any sc s)
+
+/-- the criterion, evaluated in the state the timer callbacks left behind, makes the callbacks of a whole
+turn independent of the serving order -/
+theorem loopPass_order_indep (s : State) (h : Inv s) (tms nx : List (List Act)) (r : List (Nat × Nat))
+    (hs : OrderIndepSyn (runScripts s tms) r = true) :
+    ∀ r', r'.Perm r → (cbKeys (loopPass s tms r' nx)).Perm (cbKeys (loopPass s tms r nx)) := by
+  unfold OrderIndepSyn at hs
+  simp only [Bool.and_eq_true, decide_eq_true_eq, List.all_eq_true] at hs
+  obtain ⟨hnd, hloc⟩ := hs
+  have h1 := runScripts_inv tms s h
+  intro r' hp
+  have key : ∀ l : List (Nat × Nat), l.Perm r →
+      cbKeys (loopPass s tms l nx) =
+        (l.reverse.flatMap fun fm => newKeys (runScripts s tms) (dispatchFd (waitOf s r) (runScripts s tms) fm)) ++
+          cbKeys (runScripts s tms) := by
+    intro l hl
+    unfold loopPass
+    dsimp only
+    rw [cbKeys_runScripts]
+    apply foldl_keys (runScripts s tms) (waitOf s r) (waitOf s l) h1
+      ((passInv_start s r).step (runScripts_prov tms s)) rfl l (runScripts s tms)
+    · exact (hl.map (·.1)).nodup_iff.2 hnd
+    · intro fm hfm
+      exact ⟨(hl.mem_iff).1 hfm, hfm, hloc fm ((hl.mem_iff).1 hfm), SimF.refl _ _⟩
+    · exact h1
+    · exact (passInv_start s l).step (runScripts_prov tms s)
   rw [key r' hp, key r (List.Perm.refl r)]
   exact List.Perm.append_right _ ((((List.reverse_perm r').trans hp).trans (List.reverse_perm r).symm).flatMap_right _)
 
